@@ -1,6 +1,6 @@
 """C08 — Trajectory and yaw answers do not depend on earlier queries."""
 import itertools
-from vlib.gen_traj import traj_block, yaw_block, probe_times, f2b, PINF, NINF
+from vlib.gen_traj import u16, traj_block, yaw_block, probe_times, f2b, PINF, NINF
 from vlib.skyb import hx
 
 PID = "C08"
@@ -56,6 +56,22 @@ def generate(rng, tier):
             else:
                 qs.append(rng.choice("pva") + str(rng.choice(ts) if rng.random() < 0.7 else f2b(rng.random() * sum(durs) / 900.0)))
         out.append((f"traj b {hx(blk)} " + " ".join(qs), True))
+    # long runs of the shortest possible segments (3 bytes: a hover) between ordinary ones: one query has to step over dozens
+    # of segments, from a fresh cursor, from a cursor in the middle and after a back-jump
+    for i in range(12 if thorough else 3):
+        a, da = traj_block(rng, nseg=rng.choice([1, 2]), scale=rng.choice([1, 10]), degs=(1, 0, 1, 0))
+        nh = rng.choice([20, 35, 60])
+        hov = b"".join(bytes([0]) + u16(rng.choice([1000, 60000, 250])) for _ in range(nh))
+        dh = [int.from_bytes(hov[3 * j + 1:3 * j + 3], "little") for j in range(nh)]
+        b, db = traj_block(rng, nseg=1, scale=1, degs=(0, 0, 1, 0))
+        blk = a + hov + b[9:]
+        durs = da + dh + db
+        total = sum(durs) / 1000.0
+        far = [f2b(total * f) for f in (0.97, 0.6, 0.999)] + [f2b(total + 5.0)]
+        mid = f2b(total * 0.3)
+        for qs in ([f"p{far[0]}", f"v{far[0]}", "d"], [f"p{mid}", f"p{far[2]}", f"p{far[1]}", f"a{far[3]}"],
+                   [f"p{far[3]}", f"p{mid}", f"v{far[0]}"], [f"a{far[1]}", f"p{f2b(1.0)}", f"p{far[2]}", "d", f"p{far[0]}"]):
+            out.append((f"traj {'bo'[i % 2]} {hx(blk)} " + " ".join(qs), True))
     for i in range(nobj):
         blk, durs = yaw_block(rng, n=rng.choice([2, 3, 5, 8]))
         ts = probe_times(rng, durs, 1)
